@@ -215,7 +215,7 @@ func urlDecision(c *Ctx, p *packages.Package, fd *ast.FuncDecl) {
 			atoms = append(atoms, classify(pc, path.Env))
 		}
 		if !passes {
-			if tv, ok := info.Types[path.Ret.Results[0]]; !ok || tv.Value == nil || !strings.HasPrefix(strings.Trim(tv.Value.ExactString(), `"`), "about:") {
+			if tv, ok := info.Types[res]; !ok || tv.Value == nil || !strings.HasPrefix(strings.Trim(tv.Value.ExactString(), `"`), "about:") {
 				// a return of something derived from the input but not the input itself
 				bad = "a path returns " + types.ExprString(path.Ret.Results[0]) + ", which is neither the unmodified input nor the constant about: failure URL"
 			}
